@@ -11,3 +11,5 @@ func verifStreamKey(_ *stream) uint64 { return 0 }
 func verifFinFlags(_, _ bool) uint64 { return 0 }
 
 func verifBatcherID(_ *Batcher) uint64 { return 0 }
+
+func verifTraceGet(_ *stream, _ *Event) {}
